@@ -403,6 +403,13 @@ def _gen_qr_eps(rng, D, P, tier):
     return [U(x)]
 
 
+def _gen_qr_wide(rng, D, P, tier):
+    m, n = rng.choice([(2, 3), (2, 4), (3, 4), (3, 5)])
+    a = gen_tall(rng, D, P, m, m)
+    return [U(np.concatenate([a, rand_coeffs(rng, (D, P, m, n - m), -1, 1)], axis=3))]
+
+
+op('qr:wide', _gen_qr_wide, lambda a: algopy.qr(a[0]), lambda z: np.linalg.qr(z[0]), tags=('linalg', 'factor'))
 op('qr:eps', _gen_qr_eps, lambda a: UTPM.qr(a[0], epsilon=2.0 ** -7), None, tags=('linalg', 'factor'))
 
 
